@@ -7,7 +7,7 @@ macro_rules! impl_bytes_utils_for_allocator {
     const SIZE: usize = core::mem::size_of::<$ty>();
 
     let allocated = $this.allocated();
-    if $offset + SIZE > allocated {
+    if !matches!($offset.checked_add(SIZE), Some(end) if end <= allocated) {
       return Err(Error::OutOfBounds { $offset, allocated });
     }
 
